@@ -324,6 +324,8 @@ def job_strings(tier, strings):
             judge(res, 'isEmpty/2', '$s.isEmpty($t)', dict(v, t=t), ('is_empty', (s, t)))
             for c in CHARS:
                 judge(res, 'isEmpty/3', '$s.isEmpty($t, $c)', dict(v, t=t, c=c), ('is_empty', (s, t, c)))
+        for c in CHARS:     # the documented keyword spelling
+            judge(res, 'isEmpty/kw', '$s.isEmpty(trim => false, chars => $c)', dict(v, c=c), ('is_empty', (s, False, c)))
         # replace --------------------------------------------------------------
         for old in OLDS:
             for new in NEWS:
